@@ -134,9 +134,12 @@ def build_electric_component(d):
     if cls in ("battery", "battery_sys"):
         b = d.get("bat", {})
         cap = F(b.get("kwh", 1000))
-        rate = F(Fraction(d["rated"]) / Fraction(b.get("kwh", 1000)))
+        # pack power = pack_factor x rating (a converter sized unlike its pack), charging power = charge_factor x that
+        pf = Fraction(b.get("pack_factor", 1)) if cls == "battery_sys" else Fraction(1)
+        rate = F(Fraction(d["rated"]) * pf / Fraction(b.get("kwh", 1000)))
         bat = Battery(name=name if cls == "battery" else name + "_bat", rated_capacity_kwh=cap,
-                      charging_rate_c=rate, discharge_rate_c=rate, soc0=F(b.get("soc0", 0.5)),
+                      charging_rate_c=F(Fraction(d["rated"]) * pf * Fraction(b.get("charge_factor", 1)) / Fraction(b.get("kwh", 1000))),
+                      discharge_rate_c=rate, soc0=F(b.get("soc0", 0.5)),
                       eff_charging=F(b.get("eff_c", 0.975)), eff_discharging=F(b.get("eff_d", 0.975)),
                       switchboard_id=swb)
         if cls == "battery":
@@ -262,7 +265,11 @@ def apply_electric_inputs(sysm, objs, plant, inp):
                 o.power_input = arr
         else:
             o.status = arr_of(ci["status"], bool)
-            o.load_sharing_mode = arr_of([float(x) for x in ci["lsm"]], float)
+            # inp["int_lsm"]: sharing modes that are all 0/1 handed over as an integer array (np.zeros(n, dtype=int))
+            if inp.get("int_lsm") and all(x == int(x) for x in ci["lsm"]):
+                o.load_sharing_mode = arr_of([int(x) for x in ci["lsm"]], int)
+            else:
+                o.load_sharing_mode = arr_of([float(x) for x in ci["lsm"]], float)
             if k in ("PtiPto", "Storage"):
                 arr = arr_of([float(x) for x in ci["pin"]], float)
                 if ci.get("set") == "from_output":
@@ -285,6 +292,8 @@ def set_status_through_matrix_api(sysm, objs, plant, inp):
                 continue
             st = np.array([by_obj[id(c)]["status"] for c in comps], dtype=bool).T
             lsm = np.array([[float(x) for x in by_obj[id(c)]["lsm"]] for c in comps], dtype=float).T
+            if inp.get("int_lsm") and (lsm == lsm.astype(int)).all():
+                lsm = lsm.astype(int)
             sysm.set_status_by_switchboard_id_power_type(sid, pt, st)
             sysm.set_load_sharing_mode_power_sources_by_switchboard_id_power_type(sid, pt, lsm)
 
@@ -312,7 +321,8 @@ def gen_electric_plant(rng, max_swb=5, allow_ps=True, source_classes=SOURCE_CLS,
             idx += 1
             cls = rng.choice(STORAGE_CLS)
             comps.append({"name": f"sto{idx}", "cls": cls, "swb": s, "rated": Fraction(rng.randint(2, 20) * 50),
-                          "bat": {"kwh": 1000, "wh": 5000}})
+                          "bat": {"kwh": 1000, "wh": 5000, "pack_factor": rng.choice([1, 1, Fraction(1, 2), 2, Fraction(5, 4)]),
+                                  "charge_factor": rng.choice([1, 1, Fraction(1, 2), 2])}})
         if allow_ps and rng.random() < 0.3:
             idx += 1
             comps.append({"name": f"pti{idx}", "cls": "ptipto", "swb": s, "rated": Fraction(rng.randint(2, 20) * 50)})
